@@ -105,11 +105,12 @@ class DoSBot(DatabaseClient, discriminator="dos-bot"):
             :return: Request Response object with a success code determining if the configuration was successful.
             :rtype: RequestResponse
             """
-            if "target_ip_address" in request[-1]:
-                request[-1]["target_ip_address"] = ipv4_validator(request[-1]["target_ip_address"])
-            if "target_port" in request[-1]:
-                request[-1]["target_port"] = port_validator(request[-1]["target_port"])
-            return RequestResponse.from_bool(self.configure(**request[-1]))
+            options = dict(request[-1])  # the request belongs to the caller (it is kept in the agent's history): never edit it
+            if "target_ip_address" in options:
+                options["target_ip_address"] = ipv4_validator(options["target_ip_address"])
+            if "target_port" in options:
+                options["target_port"] = port_validator(options["target_port"])
+            return RequestResponse.from_bool(self.configure(**options))
 
         rm.add_request("configure", request_type=RequestType(func=_configure))
         return rm
